@@ -1,13 +1,12 @@
-(* Which surface trees does the infix spelling of ExprParser.pp_infix denote correctly on the parser as it is?
+(* Which surface trees does the infix spelling of ExprParser.pp_infix denote correctly on the parser as it is NOW?
    DEFINITIONS ONLY (extracted: the correspondence uses [infix_class] to name the defect class of a tree).
 
-   Four node-local conditions; a tree is [infix_safe] when every node meets all four.  Each condition that fails
-   is a separate defect of the unchanged parser, with its own witness in ExprParserProofs / Properties_C07:
-     ok_right : the right operand of an infix operator is not a postfix form   (1 + p.x   parses as (1 + p).x)
-     ok_unary : the operand of unary - / not is not a postfix form             (-p.x      parses as (-p).x)
+   One node-local condition is left; a tree is [infix_safe] when every node meets it:
      ok_group : a parenthesised group does not begin with a unary operator     (2 * (-a + 1)  parses the group as the
                                                                                  prefix form (- (a + 1)))
-     ok_lt    : the operand left of '<' does not end in an uppercase variable   (MAXV < 6  enters generic-argument parsing) *)
+   This is the open language question of finding c07:infix:group-leading-unary: `(- a + 1)` is also the legal prefix form
+   "negate (a + 1)".  The three other conditions of the first version (postfix form on a right operand, postfix form on a
+   unary operand, UPPERCASE variable left of '<') are gone with the parser fixes 1b19ab4 and afe9379. *)
 From Coq Require Import NArith ZArith List Bool.
 From NV Require Import gen.Tokens gen.ParserConsts Front.ExprParser.
 Import ListNotations.
@@ -31,8 +30,6 @@ Definition is_lt (k : kind) : bool := match k with K_LT => true | _ => false end
 Definition upper_opt (o : option bytes) : bool := match o with Some x => is_upper x | None => false end.
 Definition bad_group (s : sx) : bool := is_bin s && lead_un s.
 
-Definition ok_right (s : sx) : bool := match s with SBin _ _ b => negb (is_postfix b) | _ => true end.
-Definition ok_unary (s : sx) : bool := match s with SUn _ a => negb (is_postfix a) | _ => true end.
 Definition ok_group (s : sx) : bool :=
   match s with
   | SBin _ _ b => negb (bad_group b)
@@ -41,8 +38,6 @@ Definition ok_group (s : sx) : bool :=
   | SCall _ args => forallb (fun a => negb (bad_group a)) args
   | _ => true
   end.
-Definition ok_lt (s : sx) : bool :=
-  match s with SBin op a _ => negb (is_lt op && upper_opt (last_var a)) | _ => true end.
 
 Fixpoint forall_sub (P : sx -> bool) (s : sx) : bool :=
   P s &&
@@ -53,16 +48,11 @@ Fixpoint forall_sub (P : sx -> bool) (s : sx) : bool :=
   | _ => true
   end.
 
-Definition node_ok (s : sx) : bool := ok_right s && ok_unary s && ok_group s && ok_lt s.
+Definition node_ok (s : sx) : bool := ok_group s.
 Definition infix_safe (s : sx) : bool := forall_sub node_ok s.
 
-Inductive iclass : Set := CSafe | CPostfixRight | CPostfixUnary | CGroupUnary | CUpperLt.
-Definition infix_class (s : sx) : iclass :=
-  if negb (forall_sub ok_right s) then CPostfixRight
-  else if negb (forall_sub ok_unary s) then CPostfixUnary
-  else if negb (forall_sub ok_group s) then CGroupUnary
-  else if negb (forall_sub ok_lt s) then CUpperLt
-  else CSafe.
+Inductive iclass : Set := CSafe | CGroupUnary.
+Definition infix_class (s : sx) : iclass := if infix_safe s then CSafe else CGroupUnary.
 
 (* well-formed surface tree: binary nodes carry one of the 13 infix operators, unary nodes '-' or 'not' *)
 Definition is_unary_op (k : kind) : bool := match k with K_MINUS | K_NOT => true | _ => false end.
@@ -75,7 +65,7 @@ Fixpoint nest_infix (s : sx) : nat :=
   match s with
   | SNum _ | SBool _ | SVar _ => 1
   | SBin _ a b => Nat.max (nest_infix a) (if is_bin b then S (nest_infix b) else nest_infix b)
-  | SUn _ a => if is_bin a then S (nest_infix a) else nest_infix a
+  | SUn _ a => S (if is_bin a then S (nest_infix a) else nest_infix a)      (* enter_nested: the operand counts a level *)
   | SField a _ | STIdx a _ => if is_bin a || is_un a then S (nest_infix a) else nest_infix a
   | SCall _ args =>
       S (fold_right (fun a m => Nat.max (if starts_with_minus (pp_infix a) then S (nest_infix a) else nest_infix a) m) 1 args)
